@@ -363,8 +363,10 @@ func convertValueToType(val value.Value, expectedType value.Type) (value.Value, 
 	// literals do require reassignment to prevent IsLiteral flag from
 	// propagating into the function argument or return value.
 	// Because of that they are still delegated to Assign function.
+	// They are copied: the value may be the one stored in a variable of the caller,
+	// and arguments are passed by value (an assignment to the parameter must not reach the caller).
 	if val.Type() == expectedType && !val.IsLiteral() {
-		return val, nil
+		return val.Copy(), nil
 	}
 	// additional restrictions specific to function calls
 	// on top of what is already enforced by Assign function
